@@ -603,3 +603,40 @@ def ctor_int_scale(ctx, cls, dim):
     ctx.ensure("integral-scale-met", ctx.eq(m.integral_scale, isc))
     m2 = _quiet(getattr(gs, cls), dim=dim, var=v, nugget=n, len_scale=m.len_scale, **opt)
     ctx.ensure("equals-model-built-from-resulting-len_scale", view_eq(ctx, view(m), view(m2)))
+
+
+@contract(P, "CovModel.set_arg_bounds[several]/every-parameter-ends-inside-its-new-bounds-in-any-keyword-order",
+          params={"cls": ["Gaussian", "Stable", "TPLStable", "TPLGaussian"], "start": ["len-outside", "var+len-outside", "all-inside"]},
+          functions=["covmodel/tools.py:set_arg_bounds", "covmodel/base.py:CovModel.set_arg_bounds",
+                     "covmodel/tools.py:check_arg_in_bounds", "covmodel/tools.py:default_arg_from_bounds"],
+          bounded="native run: fixed bounds var in [0.5, 2], len_scale in [5, 10], nugget in [0, 1]; both keyword orders")
+def set_bounds_order(ctx, cls, start):
+    """`set_arg_bounds(var=…, len_scale=…)`: valid bounds are never rejected; a parameter outside its new bounds gets
+    'a proper default value' inside them, a parameter inside keeps its value; the variance (which for
+    truncated-power-law models follows the other parameters through var_factor) ends inside its bounds; the
+    result does not depend on the order of the keyword arguments"""
+    from gsvc import symrun as _sr
+    with _sr.native():
+        v0, l0 = {"len-outside": (1.0, 1.0), "var+len-outside": (30.0, 20.0), "all-inside": (1.5, 7.0)}[start]
+        bnd = {"var": [0.5, 2.0], "len_scale": [5.0, 10.0], "nugget": [0.0, 1.0]}
+        outs, errs = [], []
+        for order in (("var", "len_scale", "nugget"), ("len_scale", "nugget", "var"), ("nugget", "var", "len_scale")):
+            m = _quiet(getattr(gs, cls), dim=2, var=v0, len_scale=l0)
+            try:
+                m.set_arg_bounds(**{k: list(bnd[k]) for k in order})
+            except ValueError as e:
+                errs.append(repr(e))
+                continue
+            outs.append((float(m.var), float(m.len_scale), float(m.nugget)))
+        ok_noerr = not errs
+        ok_in = all(0.5 <= v <= 2.0 and 5.0 <= l <= 10.0 and 0.0 <= n <= 1.0 for v, l, n in outs)
+        ok_same = len({tuple(round(x, 12) for x in o) for o in outs}) <= 1
+        ok_keep = True
+        if start == "all-inside" and outs:
+            ok_keep = abs(outs[0][0] - v0) < 1e-12 and abs(outs[0][1] - l0) < 1e-12
+        if start == "len-outside" and outs:
+            ok_keep = abs(outs[0][1] - 7.5) < 1e-12         # documented default: the mean of finite bounds
+    ctx.ensure("valid-bounds-accepted", ok_noerr)
+    ctx.ensure("all-parameters-inside-their-bounds", ok_in)
+    ctx.ensure("independent-of-keyword-order", ok_same)
+    ctx.ensure("inside=>kept,outside=>default-from-bounds", ok_keep)
